@@ -189,8 +189,8 @@ def run_case(case, FST, oracle=True):
         kw['scope'] = True
     viol = res['viol']
 
-    def bad(cls, detail):
-        viol.append((cls, detail, res['last_mut']))
+    def bad(cls, detail, mut=None):
+        viol.append((cls, detail, mut or res['last_mut']))
 
     try:
         gen = wroot.walk(all_param(all_), on, **kw)
@@ -201,6 +201,7 @@ def run_case(case, FST, oracle=True):
     introduced = 0
     seen_enter = set()
     sent_true_on_leave = False
+    nested_roots = set()
     any_send_true = False
     # expectations set by the previous yield's actions, checked at the following yields
     expect = None
@@ -286,6 +287,8 @@ def run_case(case, FST, oracle=True):
                 res['end'] = 'rejected'
                 res['rejected'] = f'{op} {sel}: {type(e).__name__}: {e}'
                 return res
+            if ta is a:
+                sel = 'cur'            # the selector resolved to the node just yielded
             res['last_mut'] = (op, sel)
             res['n_mut'] += 1
             old_next = num.next
@@ -315,6 +318,11 @@ def run_case(case, FST, oracle=True):
         else:
             if oracle and a is not None and not leaving and acts:
                 expect = _make_expect(case, root, f, a, did_send, cur_replaced, cur_removed, any_send_true, acts, wroot, follow)
+            elif oracle and a is not None and leaving and did_send is True and not case.get('scope'):
+                is_gen_root = f is wroot or id(f) in nested_roots
+                if on == 'both' and not case.get('recurse', True):
+                    nested_roots.add(id(f))     # its repeat walk is a generator of its own, rooted at this node
+                expect = _make_rewalk(case, root, f, is_gen_root, cur_replaced)
             elif oracle and acts:
                 expect = None
         if item is None:
@@ -429,7 +437,9 @@ def _make_expect(case, root, f, a, did_send, cur_replaced, cur_removed, any_send
     if any(x[1] != 'cur' for x in muts) or len(muts) > 1:
         return None
     if case.get('scope'):
-        scope_ok = did_send is True        # with scope=True only the send(True) rule is checked
+        # with scope=True only the send(True) rule on an unreplaced node is checked (the scope helpers, e.g. for the
+        # first iterator of a comprehension, are not modelled and deliberately do not walk a replacement's children)
+        scope_ok = did_send is True and not cur_replaced
     else:
         scope_ok = True
     all_ = case.get('all', 'F')
@@ -460,8 +470,64 @@ def _make_expect(case, root, f, a, did_send, cur_replaced, cur_removed, any_send
     return {'kind': 'children', 'want': desc, 'i': 0, 'replaced': cur_replaced, 'sent': did_send, 'f': f}
 
 
+def _post_vis(a, all_, back):
+    """visible proper descendants in leave (post-) order, document order per level (reversed for back)"""
+    out = []
+
+    def go(n):
+        ch = _doc_children(n)
+        if back:
+            ch = ch[::-1]
+        for c in ch:
+            go(c)
+            if vis_of(c, all_):
+                out.append(c)
+
+    go(a)
+    return out
+
+
+def _make_rewalk(case, root, f, is_gen_root, cur_replaced):
+    """send(True) on a LEAVING yield: the children of the node -- as they are now, i.e. the NEW children if the consumer
+    replaced the node in this step -- are walked again and then the node is yielded again (walk docstring, `on`).
+    Expected sequence from plain `ast`, after all actions of this step.  Nothing is expected if the node is gone."""
+    na = f.a
+    if na is None or getattr(na, 'f', None) is not f or id(na) not in _reachable(root.a) or _pos_key(na) is None:
+        return None                 # gone, or a position-less leaf (ctx / operator under all=True): nothing to order
+    all_, back = case.get('all', 'F'), case.get('back', False)
+    pre = 'root-' if is_gen_root else ''
+    mut = ('replace', 'cur') if cur_replaced else None      # the cause, whatever else the script did in this step
+    if is_gen_root and not util.soc(na):
+        return None                 # a childless walk root is not yielded again (nothing to restart)
+    if case['on'] == 'leave':
+        want = _post_vis(na, all_, back) + ([na] if vis_of(na, all_) else [])
+        return {'kind': 'rewalk', 'want': want, 'i': 0, 'cls': pre + 'rewalk-not-walked', 'f': f, 'mut': mut}
+    # both: the node is entered again, then its descendants (entries checked in order; leaving yields are skipped)
+    if not vis_of(na, all_):
+        return None
+    want = [na] + _vis_desc(na, all_, back)
+    return {'kind': 'children', 'want': want, 'i': 0, 'replaced': False, 'sent': True, 'f': f, 'cls': pre + 'rewalk-not-walked', 'mut': mut}
+
+
 def _check_expect(ex, f, a, leaving, k, bad):
     """returns the expectation to keep (or None when discharged / cancelled)"""
+    if ex['kind'] == 'rewalk':
+        want = ex['want']
+        if f is None:
+            if ex['i'] < len(want):
+                bad(ex['cls'], f'walk ended with {len(want) - ex["i"]} node(s) of the repeat walk after send(True) on leaving not yielded', ex.get('mut'))
+            return None
+        if a is not None and _pos_key(a) is None:
+            return ex
+        if ex['i'] >= len(want):
+            return None
+        if a is not want[ex['i']]:
+            bad(ex['cls'], f'yield {k}: after send(True) on leaving expected #{ex["i"]} of the repeat walk '
+                           f'({want[ex["i"]].__class__.__name__}: current children in leave order, then the node again), got '
+                           f'{a.__class__.__name__ if a is not None else None}', ex.get('mut'))
+            return None
+        ex['i'] += 1
+        return ex if ex['i'] < len(want) else None
     if ex['kind'] == 'removed':
         # the walk continues with what followed the removed node's subtree
         if f is None:
@@ -477,8 +543,8 @@ def _check_expect(ex, f, a, leaving, k, bad):
         return None
     if f is None:
         if ex['kind'] == 'children' and ex['i'] < len(ex['want']):
-            bad('children-not-walked' if ex['replaced'] else ('send-true-ignored' if ex['sent'] else 'children-not-walked'),
-                f'walk ended with {len(ex["want"]) - ex["i"]} expected descendant(s) not yielded')
+            bad(ex.get('cls') or 'children-not-walked' if ex['replaced'] else (ex.get('cls') or 'send-true-ignored' if ex['sent'] else 'children-not-walked'),
+                f'walk ended with {len(ex["want"]) - ex["i"]} expected descendant(s) not yielded', ex.get('mut'))
         return None
     if ex['kind'] == 'skip':
         if a is not None and id(a) in ex['ids']:
@@ -492,8 +558,9 @@ def _check_expect(ex, f, a, leaving, k, bad):
         if ex['i'] >= len(want):
             return None
         if a is not want[ex['i']]:
-            bad('children-not-walked' if ex['replaced'] else ('send-true-ignored' if ex['sent'] else 'children-not-walked'),
-                f'yield {k}: expected descendant #{ex["i"]} of the current node next, got {a.__class__.__name__ if a else None}')
+            bad(ex.get('cls') or 'children-not-walked' if ex['replaced'] else (ex.get('cls') or 'send-true-ignored' if ex['sent'] else 'children-not-walked'),
+                f'yield {k}: expected descendant #{ex["i"]} of the current node next, got {a.__class__.__name__ if a else None}',
+                ex.get('mut'))
             return None
         ex['i'] += 1
         return ex if ex['i'] < len(want) else None
